@@ -65,9 +65,40 @@ def monitor(scn, d):
                         return "step %d (%s): message %r carries port %d, the server announced %d" % (i, step_label(scn, i), l, p[4], port)
     return None
 
+def slow_reports(impl, result):
+    """the lines that only appear with real time: requests pending for 10 s and more are listed by '? stats'.  One daemon, two
+       pending clients, 10.6 s of silence, then every info request; EVERY line written (statistics included) must be a valid message.
+       Runs in a thread beside the rest of the check."""
+    d = Path(tempfile.mkdtemp(dir=str(BUILD / "tmp"), prefix="slow"))
+    try:
+        conf = d / "iauthd.conf"
+        conf.write_text(conf_text(str(impl / "mods"), True, True, [('a.svc', 'login')], [dict(name='r1', **{'class': 'c1'})], 0), encoding="latin1")
+        p = subprocess.Popen([str(impl / "iauthd-c"), "-n", "-f", str(conf)], stdin=subprocess.PIPE, stdout=subprocess.PIPE, stderr=subprocess.PIPE, env=SAN_ENV, cwd=str(d))
+        p.stdin.write(b"5 C 10.0.0.1 4000 10.0.0.2 6667\n17 C 2001:db8::7 65535 10.0.0.2 6667\n17 P :+x acct pw\n-1 ? stats\n"); p.stdin.flush()
+        time.sleep(10.6)
+        p.stdin.write(b"-1 ? stats\n-1 ? stats2\n-1 ? config\n5 H\n17 D\n"); p.stdin.close()
+        out = p.stdout.read().decode('latin1'); err = p.stderr.read().decode('latin1', 'replace')
+        rc = p.wait(timeout=30)
+        lines = out.split("\n")
+        if lines and lines[-1] == "": lines.pop()
+        bad = [l for l in lines if not wf_line(l)]
+        result.update(rc=rc, lines=lines, bad=bad, err=err[-800:])
+    except Exception as e:
+        result.update(rc=-1, lines=[], bad=[], err="slow run failed: %r" % (e,))
+    finally:
+        shutil.rmtree(d, ignore_errors=True)
+
 def run(chk):
+    import threading
+    impl0, _ = build_impl()
+    slow = {}
+    th = None
+    if impl0 is not None:
+        th = threading.Thread(target=slow_reports, args=(impl0, slow)); th.start()
     r = standard_run(chk, PROFILE, 1500, 20000)
-    if r is None: return
+    if r is None:
+        if th: th.join()
+        return
     drv, impl, scns, ms, ds = r
     def proj(lines, n):
         return [l for l in lines]
@@ -139,6 +170,14 @@ def run(chk):
         bad = [l for l in d if l and not wf_line(l)]
         if bad:
             chk.violation("after a failed reload the line %r reached the server channel" % bad[0], s.describe() + "\n" + "\n".join(d), "reload-leak")
+    if th:
+        th.join()
+        chk.cov["evaluations"] += 1; chk.hist("slow run: requests pending for more than 10 s, then every info request")
+        if slow.get("rc") != 0 or slow.get("bad"):
+            chk.violation("with two requests pending for more than 10 s, '? stats' / '? stats2' / '? config' make the daemon write %s" % (("lines that are not valid IAuth messages: %r" % slow["bad"][:4]) if slow.get("bad") else ("nothing usable: exit status %s, %s" % (slow.get("rc"), slow.get("err")))),
+                          "input: 5 C 10.0.0.1 4000 10.0.0.2 6667 / 17 C 2001:db8::7 65535 10.0.0.2 6667 / 17 P :+x acct pw / -1 ? stats / (10.6 s pause) / -1 ? stats / -1 ? stats2 / -1 ? config / 5 H / 17 D\n\noutput:\n%s\n\nstderr:\n%s" % ("\n".join(slow.get("lines", [])), slow.get("err")), "slow-stats")
+        else:
+            chk.cov["traces_validated_against_impl"] += 1
     chk.cov["rule"] = "every stdout line of every run (banner included) is matched against the IAuth message grammar; every client-directed message is compared with the announced id / address (as a 128-bit value, IPv4-compatible canonicalised to IPv4-mapped) / port; all textual address forms; logs sections routing to files and '? nosuchrequest', '? config', malformed X, failed reload mixed in; distinct = distinct output traces"
 
 def run_failed_reload(impl, scn):
